@@ -57,6 +57,19 @@ type zzPolicySpec struct {
 	rootVersion   uint64
 	targetsVer    uint64
 	delegated     map[string][]int // delegated rule file name -> keys that sign it
+
+	// controller repositories declared by the root, the controller metadata
+	// carried in the policy tree, and (for the reference definitions only) the
+	// global rules those controllers declare
+	controllers      []zzControllerSpec
+	controllerMeta   map[string]*StateMetadata
+	controllerGlobal []zzGlobalSpec
+}
+
+type zzControllerSpec struct {
+	name     string
+	location string
+	rootKeys []int
 }
 
 // zzEvent is one step of the abstract history.
@@ -143,6 +156,13 @@ func (w *zzWorld) zzBuildState(spec *zzPolicySpec, rootSigners, targetsSigners [
 			zzMust(root.AddGlobalRule(tufv02.NewGlobalRuleThreshold(g.name, []string{g.pattern}, g.threshold)))
 		}
 	}
+	for _, c := range spec.controllers {
+		var principals []tuf.Principal
+		for _, k := range c.rootKeys {
+			principals = append(principals, zzKey(k))
+		}
+		zzMust(root.AddControllerRepository(c.name, c.location, principals))
+	}
 	if spec.rootVersion != 0 {
 		root.Version = spec.rootVersion
 	}
@@ -150,7 +170,7 @@ func (w *zzWorld) zzBuildState(spec *zzPolicySpec, rootSigners, targetsSigners [
 	zzMust(err)
 	zzSignEnv(rootEnv, rootSigners...)
 
-	state := &State{Metadata: &StateMetadata{RootEnvelope: rootEnv}}
+	state := &State{Metadata: &StateMetadata{RootEnvelope: rootEnv}, ControllerMetadata: spec.controllerMeta}
 	if len(spec.targetsKeys) == 0 {
 		return state
 	}
